@@ -50,8 +50,9 @@ Check(M, sn) ==
                !.wasIn = @ \cup {c \in CIds : InConns(sn, c)},
                !.had = @ \cup {p \in MPeers : sn.peers[p].conn # 0}]
 
-Step(M, st) ==
+StepN(M, st) ==
   LET M0 == [M EXCEPT !.i = @ + 1]
       M1 == IF IsFeed(st) THEN OnFeed(M0, st.act.c, st.act.ms) ELSE M0
   IN Check(FoldLeft(OnOut, M1, st.out), st.snap)
+Step(M, s0) == StepN(M, Norm(s0))
 =============================================================================
